@@ -251,7 +251,13 @@ func noise(r *gen.RNG) {
 	if r.Chance(1, 2) {
 		t = ref.TConnect
 	}
+	if r.Chance(1, 4) {
+		t = ref.TPublish
+	}
 	a := gen.Packet(r, t, gen.RandomMask(r, t), gen.Small, gen.Domain{})
+	if t == ref.TPublish {
+		a.Payload = r.Bytes(8 + r.Intn(600))
+	}
 	if t == ref.TConnect && r.Chance(3, 4) {
 		a.ProtoName = altProtoNames[r.Intn(len(altProtoNames))]
 		a.ProtoVer = gen.Pick[byte](r, 4, 5, 3)
